@@ -122,6 +122,7 @@ fn main() {
         Some("replay-inner") if args.len() == 4 && args[2] == "--timeout" => replay_file(&args[1], true, args[3].parse().unwrap_or(60)),
         Some("limits-child") if args.len() == 2 => scen_limits::child_main(&args[1]),
         Some("limits-floors") => scen_limits::floors_main(),
+        Some("limits-baseline") => scen_limits::baseline_main(),
         _ => usage(),
     };
     std::process::exit(code);
